@@ -18,7 +18,9 @@ ASSUMPTIONS = ["user callables answer as a function of the site (A-oracle)"]
 AW = {"T": 5, "F": 5, "R": 0.3, "BR": 0.3, "CT": 0.5, "CF": 0.5}
 NEIGHBOURS = [{"from": "C18", "limit": 400, "why": "the order of inherited and own contracts on real calls"},
               {"from": "C17", "limit": 400, "why": "the lists evaluated are those of the class of the instance"},
-              {"from": "C05", "limit": 1200, "why": "evaluation of a conjunctive group stops at its first falsy condition: later conditions are not even prepared"}]
+              {"from": "C05", "limit": 1200, "why": "evaluation of a conjunctive group stops at its first falsy condition: later conditions are not even prepared"},
+              {"from": "C03", "limit": 500, "why": "all invariants are evaluated, in order, at the end of every kind of constructor; the first falsy one is reported"},
+              {"from": "C04", "limit": 1500, "why": "inherited postconditions and snapshots of EVERY base precede the own ones"}]
 
 
 def cases(tier, rng):
